@@ -14,10 +14,18 @@ fn structure(p: &PDB) -> Sx {
     v.push(snap::pdb(p, &snap::atom));
     l(v)
 }
-fn gz(bytes: &[u8]) -> Vec<u8> {
+fn gz1(bytes: &[u8]) -> Vec<u8> {
     let mut e = flate2::write::GzEncoder::new(Vec::new(), flate2::Compression::default());
     e.write_all(bytes).expect("gz");
     e.finish().expect("gz")
+}
+/// gzip file of two members (what `cat a.gz b.gz` or a block compressor gives): its content is the concatenation
+fn gz(bytes: &[u8]) -> Vec<u8> {
+    let cut = bytes.iter().position(|c| *c == b'\n').map_or(bytes.len() / 2, |k| (k + 1).max(bytes.len() / 2).min(bytes.len()));
+    let cut = bytes[..cut].iter().rposition(|c| *c == b'\n').map_or(cut, |k| k + 1);
+    let mut v = gz1(&bytes[..cut]);
+    v.extend_from_slice(&gz1(&bytes[cut..]));
+    v
 }
 fn gunzip(bytes: &[u8]) -> Option<Vec<u8>> {
     let mut d = flate2::read::GzDecoder::new(bytes);
@@ -88,15 +96,23 @@ pub fn run(seed: u64, count: usize, _thorough: bool, out: &mut Out, tmp: &str) {
                 r.ty = "H".into();
                 r.name = "H".into();
             }
-            let first = d.rows.first().cloned();
-            // the same position in every model so that the models keep corresponding
-            if let Some(f) = first {
-                let per = d.rows.iter().filter(|r| r.model == f.model).count().max(1);
-                // (only when the models have the same rows; otherwise the first row alone)
-                let equal = d.rows.len() % per == 0 && d.rows.chunks(per).all(|c| c.iter().all(|r| r.model == c[0].model));
-                for k in (0..if equal { d.rows.len() } else { 1 }).step_by(per) {
-                    d.rows[k].ty = "H".into();
-                    d.rows[k].name = "H".into();
+            // the first row of every model, wherever the rows of the models stand (so that the models keep corresponding);
+            // only when the models have the same number of rows, otherwise the first row alone
+            let mut models: Vec<Option<usize>> = Vec::new();
+            for r in &d.rows {
+                if !models.contains(&r.model) {
+                    models.push(r.model);
+                }
+            }
+            let sizes: Vec<usize> = models.iter().map(|m| d.rows.iter().filter(|r| r.model == *m).count()).collect();
+            if sizes.windows(2).all(|w| w[0] == w[1]) {
+                let mut seen: Vec<Option<usize>> = Vec::new();
+                for r in d.rows.iter_mut() {
+                    if !seen.contains(&r.model) {
+                        seen.push(r.model);
+                        r.ty = "H".into();
+                        r.name = "H".into();
+                    }
                 }
             }
         }
@@ -165,7 +181,7 @@ pub fn run(seed: u64, count: usize, _thorough: bool, out: &mut Out, tmp: &str) {
         ("pdb", false, Format::Pdb, pdb_text.as_bytes().to_vec(), pdb_text.as_bytes().to_vec()),
         ("cif", false, Format::Mmcif, cif_text.as_bytes().to_vec(), cif_text.as_bytes().to_vec()),
         ("pdb", true, Format::Pdb, gz(pdb_text.as_bytes()), pdb_text.as_bytes().to_vec()),
-        ("cif", true, Format::Mmcif, gz(cif_text.as_bytes()), cif_text.as_bytes().to_vec()),
+        ("cif", true, Format::Mmcif, gz1(cif_text.as_bytes()), cif_text.as_bytes().to_vec()),
     ];
     // the direct reading of the bytes under each of the eight option sets
     let direct_all: Vec<Vec<Option<Sx>>> = (0..8usize)
@@ -236,14 +252,21 @@ pub fn run(seed: u64, count: usize, _thorough: bool, out: &mut Out, tmp: &str) {
         let path_s = path.to_string_lossy().to_string();
         for gzip in [false, true] {
             let _ = std::fs::remove_file(&path);
+            // half of the targets exist already, with more bytes than will be written: the saved file is the new content alone
+            let preexisting = rng.chance(1, 2);
+            if preexisting {
+                let _ = std::fs::write(&path, vec![b'x'; 50_000]);
+            }
             let r = crate::guarded(|| if gzip { save_gz(&structure, &path_s, StrictnessLevel::Loose, None) } else { save(&structure, &path_s, StrictnessLevel::Loose) });
             let obs = match r {
                 None => y("panic"),
                 Some(Err(_)) => {
-                    if path.exists() {
-                        y("error-but-file")
-                    } else {
+                    // a refused save leaves the file system as it was
+                    let untouched = if preexisting { std::fs::read(&path).map_or(false, |b| b.len() == 50_000 && b.iter().all(|c| *c == b'x')) } else { !path.exists() };
+                    if untouched {
                         y("none")
+                    } else {
+                        y("error-but-file")
                     }
                 }
                 Some(Ok(())) => {
